@@ -139,6 +139,9 @@ func Unpack(buf []byte, dotu bool) (fc *Fcall, fcsz int, err error) {
 		fc.Fid, p = gint32(p)
 		fc.Newfid, p = gint32(p)
 		m, p = gint16(p)
+		if len(p) < int(m)*2 { /* every wname[s] takes at least 2 bytes */
+			goto szerror
+		}
 		fc.Wname = make([]string, m)
 		for i := 0; i < int(m); i++ {
 			fc.Wname[i], p = gstr(p)
